@@ -10,6 +10,7 @@ import (
 	"encoding/base64"
 	"fmt"
 	"io"
+	"math/big"
 	"net/http"
 	"net/http/httptest"
 	"net/url"
@@ -168,7 +169,37 @@ var ckNames = [...]string{"honest", "no-header", "method", "path", "query", "bod
 var csMethods = []string{http.MethodPost, http.MethodGet, http.MethodPut, http.MethodDelete}
 var csPaths = []string{"/a/b", "/a", "/a/b/", "/a/bc", "/"}
 var csQueries = []string{"", "c=d&e=f", "e=f&c=d", "c=d", "c=d&e=g", "c=d&e=f&x=1"}
-var payloadSizes = []int{5, 0, 1, 15, 16, 17, 31, 32, 33, 100, 255, 1000}
+var payloadSizes = []int{5, 0, 1, 15, 16, 17, 31, 32, 33, 100, 255, 1000, 47, 48, 49, 4096}
+
+// other spellings of paths the routes know (percent-escapes, doubled slash, dot segment) and queries with
+// repeated / empty / escaped / differently cased keys.  The signature covers the path as net/http presents
+// it to the server (URL.Path, i.e. decoded, not cleaned) and the query exactly as sent (URL.RawQuery).
+var csPathsExotic = []string{"/a%2Fb", "/%61/b", "//a", "/a/./b", "/a/b%2F"}
+var csQueriesExotic = []string{"c=d&c=e", "c=&e", "c=d&", "&", "c=%64&e=f", "c=d+e&e=f", "C=d&e=f", "c=d&e=f&e=f", "c=%zz"}
+
+func allQueries() []string { return append(append([]string{}, csQueries...), csQueriesExotic...) }
+
+// header layouts of X-Content-Security: index 0 is the usual one
+const (
+	hfUsual = iota
+	hfNoSpaces
+	hfExtraSpaces
+	hfReordered
+	hfCount
+)
+
+// pathQueryOnWire: path and query as net/http hands them to the server for this request line.
+func pathQueryOnWire(path, query string) (string, string) {
+	raw := "http://localhost" + path
+	if query != "" {
+		raw += "?" + query
+	}
+	u, err := url.Parse(raw)
+	if err != nil {
+		return path, query
+	}
+	return u.Path, u.RawQuery
+}
 
 // timestamp offsets relative to the tolerance, in seconds; code*: see tsOffset
 const (
@@ -181,6 +212,7 @@ const (
 	toFutureOutside
 	toFarPast
 	toFarFuture
+	toExtreme // one of tsExtremes (extremes_test.go), chosen by csPlan.tsX
 	toCount
 )
 
@@ -219,6 +251,7 @@ type csPlan struct {
 	kseed    uint64
 	fp       int // which configured key the client uses
 	tsCode   int
+	tsX      int // index into tsExtremes when tsCode == toExtreme
 	delay    int // delivery delay code: 0 none; 1 tol-1ns.. see deliveryDelay
 	mseed    uint64
 	rsize    int // response payload size
@@ -228,6 +261,7 @@ type csPlan struct {
 	encEmpty bool   // encrypt the empty payload instead of sending no body
 	chunked  bool   // the body travels with undeclared length (ContentLength -1)
 	hb       hbPlan // how the protected handler treats the body (handler_test.go)
+	hdrForm  int    // layout of the X-Content-Security header (hf*)
 }
 
 func drawCsPlan(t *simrt.Tape) csPlan {
@@ -238,13 +272,22 @@ func drawCsPlan(t *simrt.Tape) csPlan {
 	p.method = t.Intn(len(csMethods))
 	p.path = t.Intn(len(csPaths))
 	p.query = t.Intn(len(csQueries))
+	if t.Chance(1, 4) {
+		p.path = len(csPaths) + t.Intn(len(csPathsExotic))
+	}
+	if t.Chance(1, 4) {
+		p.query = len(csQueries) + t.Intn(len(csQueriesExotic))
+	}
 	p.size = payloadSizes[t.Intn(len(payloadSizes))]
 	p.pseed = seedOf(t)
 	p.crypt = t.Bool()
 	p.keyLen = []int{32, 16, 24}[t.Intn(3)]
 	p.kseed = seedOf(t)
 	p.fp = t.Intn(2)
-	p.tsCode = weighted(t, 8, 1, 2, 2, 1, 2, 2, 1, 1)
+	p.tsCode = weighted(t, 8, 1, 2, 2, 1, 2, 2, 1, 1, 6)
+	if p.tsCode == toExtreme {
+		p.tsX = t.Intn(len(tsExtremes))
+	}
 	p.delay = weighted(t, 8, 1, 1, 1, 1, 1)
 	p.mseed = seedOf(t)
 	p.rsize = payloadSizes[t.Intn(len(payloadSizes))]
@@ -254,6 +297,11 @@ func drawCsPlan(t *simrt.Tape) csPlan {
 	p.encEmpty = t.Chance(1, 8)
 	p.chunked = t.Chance(1, 4)
 	p.hb = drawHb(t)
+	p.hdrForm = weighted(t, 6, 1, 1, 1)
+	if !p.crypt && t.Chance(1, 6) {
+		// the key is only an HMAC key then: any length will do
+		p.keyLen = []int{1, 15, 33, 48}[t.Intn(4)]
+	}
 	return p
 }
 
@@ -316,14 +364,11 @@ type csWorld struct {
 
 // paths: the request paths of the workload (under the group prefix in engine mode).
 func (w *csWorld) paths() []string {
-	if w.prefix == "" {
-		return csPaths
+	all := append(append([]string{}, csPaths...), csPathsExotic...)
+	for i, p := range all {
+		all[i] = w.prefix + p
 	}
-	ps := make([]string, len(csPaths))
-	for i, p := range csPaths {
-		ps[i] = w.prefix + p
-	}
-	return ps
+	return all
 }
 
 // build renders the plan into a wire request signed at second nowS.
@@ -341,7 +386,17 @@ func (w *csWorld) build(p csPlan, nowS int64) *csRec {
 	}
 	q := &rec.q
 	paths := w.paths()
-	q.method, q.path, q.query = csMethods[p.method], paths[p.path], csQueries[p.query]
+	queries := allQueries()
+	q.method, q.path, q.query = csMethods[p.method], paths[p.path], queries[p.query]
+	if p.path >= len(csPaths) {
+		w.r.Probe("cs-path-exotic-" + csPathsExotic[p.path-len(csPaths)])
+	}
+	if p.query >= len(csQueries) {
+		w.r.Probe("cs-query-exotic-" + csQueriesExotic[p.query-len(csQueries)])
+	}
+	if p.keyLen != 16 && p.keyLen != 24 && p.keyLen != 32 {
+		w.r.Probe("cs-hmac-key-of-odd-length")
+	}
 	q.chunked = p.chunked
 	q.body = rec.plain
 	if p.crypt && (len(rec.plain) > 0 || p.encEmpty) {
@@ -349,6 +404,10 @@ func (w *csWorld) build(p csPlan, nowS int64) *csRec {
 	}
 	ts := nowS + tsOffset(p.tsCode, tol)
 	tss := strconv.FormatInt(ts, 10)
+	if p.tsCode == toExtreme {
+		tss = tsExtremes[p.tsX].f(nowS, tol)
+		w.r.Probe("cs-timestamp-extreme-" + tsExtremes[p.tsX].name)
+	}
 	fpKey := p.fp
 	if w.srv.fps[fpKey] == "" {
 		fpKey = 1 - fpKey
@@ -361,7 +420,8 @@ func (w *csWorld) build(p csPlan, nowS int64) *csRec {
 	inner := fmt.Sprintf("version=v1; type=%d; key=%s; time=%s", typ, std64.EncodeToString(rec.aesKey), tss)
 	encKey := w.srv.key(fpKey)
 	m := &prng{s: p.mseed}
-	signTS, signMethod, signPath, signQuery, signBody, signKey := tss, q.method, q.path, q.query, q.body, rec.aesKey
+	signPath, signQuery := pathQueryOnWire(q.path, q.query) // what an honest client signs
+	signTS, signMethod, signBody, signKey := tss, q.method, q.body, rec.aesKey
 	other := func(list []string, cur string) string {
 		for {
 			if s := list[m.next()%uint64(len(list))]; s != cur {
@@ -379,7 +439,7 @@ func (w *csWorld) build(p csPlan, nowS int64) *csRec {
 	case ckPath:
 		q.path = other(paths, q.path)
 	case ckQuery:
-		q.query = other(csQueries, q.query)
+		q.query = other(queries, q.query)
 	case ckBody:
 		nb := append([]byte{}, q.body...)
 		switch {
@@ -405,6 +465,9 @@ func (w *csWorld) build(p csPlan, nowS int64) *csRec {
 		q.body = nb
 	case ckSignedOtherTimestamp:
 		signTS = strconv.FormatInt(ts+1-2*int64(m.next()%2), 10)
+		if p.tsCode == toExtreme {
+			signTS = "1" + tss
+		}
 	case ckSigCorrupt:
 		corruptSig = true
 	case ckSigOtherKey:
@@ -471,6 +534,17 @@ func (w *csWorld) build(p csPlan, nowS int64) *csRec {
 		secret = string(b)
 	}
 	q.csHeader = strings.Join([]string{"key=" + fingerprint, "secret=" + secret, "signature=" + sig}, "; ")
+	switch p.hdrForm {
+	case hfNoSpaces:
+		q.csHeader = strings.Join([]string{"key=" + fingerprint, "secret=" + secret, "signature=" + sig}, ";")
+		w.r.Probe("cs-header-without-spaces")
+	case hfExtraSpaces:
+		q.csHeader = "  " + strings.Join([]string{"key=" + fingerprint, "secret=" + secret, "signature=" + sig}, " ;   ") + " ; "
+		w.r.Probe("cs-header-with-extra-spaces")
+	case hfReordered:
+		q.csHeader = strings.Join([]string{"signature=" + sig, "key=" + fingerprint, "secret=" + secret}, "; ")
+		w.r.Probe("cs-header-reordered")
+	}
 	if p.kind == ckEmptyFields {
 		switch m.next() % 3 {
 		case 0:
@@ -509,8 +583,10 @@ func (q *wire) request(ctx context.Context) *http.Request {
 // ---------------------------------------------------------------------------
 
 type csVerdict struct {
-	reason string // "" = signature covers the request; otherwise why not
-	ts     int64
+	reason string   // "" = signature covers the request; otherwise why not
+	ts     *big.Int // the timestamp (seconds; any size); nil = the string is no timestamp
+	tsOpen bool     // the string is a number in another notation than plain decimal seconds: decision left open
+	tsRaw  string
 	crypt  bool
 	key    []byte
 }
@@ -555,13 +631,14 @@ func (w *csWorld) judgeWith(srv *csServer, q *wire) csVerdict {
 		v.reason = "bad-inner-type"
 		return v
 	}
-	ts, err := strconv.ParseInt(in["time"], 10, 64)
-	if err != nil {
+	v.tsRaw = in["time"]
+	ts, open, ok := readTimestamp(v.tsRaw)
+	if !ok {
 		v.reason = "bad-inner-time"
 		return v
 	}
-	v.ts, v.crypt, v.key = ts, typ == 1, key
-	path, query := q.path, q.query
+	v.ts, v.tsOpen, v.crypt, v.key = ts, open, typ == 1, key
+	path, query := pathQueryOnWire(q.path, q.query)
 	if q.reqURI != "" {
 		if u, err := url.Parse(q.reqURI); err == nil {
 			path, query = u.Path, u.RawQuery
@@ -571,15 +648,6 @@ func (w *csWorld) judgeWith(srv *csServer, q *wire) csVerdict {
 		v.reason = "signature-does-not-cover-request"
 	}
 	return v
-}
-
-// window of a timestamp: the server accepts at instant t iff |t - ts| <= tolerance, compared on
-// whole seconds.  Instants in [ts-tol, ts+tol] are inside, instants before ts-tol or at/after
-// ts+tol+1s are outside; the open second after ts+tol is left undecided (second granularity).
-func window(ts int64, tol time.Duration) (lo, hi, slack time.Time) {
-	lo = time.Unix(ts, 0).Add(-tol)
-	hi = time.Unix(ts, 0).Add(tol)
-	return lo, hi, hi.Add(time.Second)
 }
 
 // ---------------------------------------------------------------------------
@@ -709,8 +777,8 @@ func writeChunks(rw http.ResponseWriter, b []byte, chunks int) {
 
 func (w *csWorld) describe(rec *csRec, v *csVerdict) string {
 	q := &rec.q
-	return fmt.Sprintf("request %d (%s; %s %s body=%s X-Request-Uri=%q crypt=%v; verifier: reason=%q ts=%d tolerance=%v) sent %s returned %s",
-		rec.id, ckNames[rec.plan.kind], q.method, q.url(), short(q.body), q.reqURI, v.crypt, v.reason, v.ts, w.srv.tolerance,
+	return fmt.Sprintf("request %d (%s; %s %s body=%s X-Request-Uri=%q crypt=%v; verifier: reason=%q ts=%s tolerance=%v) sent %s returned %s",
+		rec.id, ckNames[rec.plan.kind], q.method, q.url(), short(q.body), q.reqURI, v.crypt, v.reason, tsText(v), w.srv.tolerance,
 		rec.t0.UTC().Format("2006-01-02T15:04:05.000000000"), rec.t1.UTC().Format("15:04:05.000000000"))
 }
 
@@ -733,16 +801,18 @@ func (w *csWorld) checkCS(rec *csRec, rw *httptest.ResponseRecorder) {
 		if rec.ran == 1 {
 			end = rec.th
 		}
-		lo, hi, slack := window(v.ts, w.srv.tolerance)
-		mustRun = !rec.t0.Before(lo) && !rec.t1.After(hi)
-		mayRun = rec.t0.Before(slack) && !end.Before(lo)
+		var atEdge bool
+		mayRun, mustRun, atEdge = tsJudge(v.ts, v.tsOpen, w.srv.tolerance, rec.t0, end, rec.t1)
 		if !mayRun {
 			r.Probe("cs-timestamp-outside-tolerance")
 			w.boundary = true
 		}
-		if rec.t0.Equal(lo) || rec.t0.Equal(hi) {
+		if atEdge {
 			r.Probe("cs-timestamp-exactly-at-tolerance")
 			w.boundary = true
+		}
+		if v.tsOpen {
+			r.Probe("cs-timestamp-in-other-notation")
 		}
 		if mayRun && !mustRun {
 			r.Probe("cs-timestamp-undecided")
@@ -794,13 +864,7 @@ func (w *csWorld) checkCS(rec *csRec, rw *httptest.ResponseRecorder) {
 	}
 }
 
-func (w *csWorld) finding(class, format string, a ...any) {
-	if masked[class] {
-		w.r.Probe("masked-finding-" + class)
-		return
-	}
-	w.r.Fail(class, format, a...)
-}
+func (w *csWorld) finding(class, format string, a ...any) { finding(w.r, class, format, a...) }
 
 // checkDelivered: the request was valid and the handler ran: body as the application meant it,
 // response as the handler wrote it (after the client undoes the encryption).
